@@ -307,15 +307,16 @@ def reduced_universe(tier):
         ("AddEdge", (0, XA, [("NVal", ay)], ("IdNone",))),
         ("NewEdge", (0, 0, [("NVal", ax), ("NFresh", B)], True, False, ("IdStr", 0))),
         ("SetExt", (0, [("NVal", ax)])), ("SetExt", (0, [("NVal", bx)])), ("SetExt", (0, [])),
-        ("RemoveNode", (0, ax)), ("RemoveNode", (0, bx)),
+        ("RemoveNode", (0, ax)),
         ("RemoveEdge", (0, edge(fA, [ax], EX(0)))),
-        ("Copy", 0), ("Copy", 1), ("EqOp", (0, 2)), ("EqOp", (1, 2)),
+        ("Copy", 0), ("Copy", 1), ("EqOp", (0, 2)),
         ("AddRule", (1, XA, 0)), ("NewRule", (1, 1, 0)), ("AddRule", (1, X0, 0)),
-        ("SetStart", (1, ("SName", 0))), ("SetStart", (1, ("SLabel", XA))),
-        ("AddEdgeLabel", (0, fB)), ("AddEdgeLabel", (1, fB)),
+        ("SetStart", (1, ("SName", 0))),
+        ("AddEdgeLabel", (1, fB)),
     ]
     if tier != "quick":
         ops += [
+            ("RemoveNode", (0, bx)), ("EqOp", (1, 2)), ("SetStart", (1, ("SLabel", XA))), ("AddEdgeLabel", (0, fB)),
             ("AddNode", (0, ("NFresh", B))),
             ("NewEdge", (0, 1, [], False, True, ("IdNone",))),
             ("NewEdge", (0, 0, [("NVal", ay)], True, True, ("IdStr", 2))),
@@ -412,7 +413,7 @@ def run(tier, seed):
     n_exh = 0
     for ops in exhaustive(tier):
         add(ops, "exhaustive"); n_exh += 1
-    n_rand = 1500 if tier == "quick" else 40000
+    n_rand = 1200 if tier == "quick" else 40000
     hist = {}
     fails = steps = 0
     for i in range(n_rand):
